@@ -50,6 +50,14 @@ Definition call_ok (c : hcall) : bool :=
   (* a store by index into the caller's buffer: only the first character (a buffer has at least one), never at a computed
      position such as the trimmed length, which is outside a full variable *)
   | RawStore _ _ idx => String.eqb idx "0"
+  (* a std::string built from the character argument: in a bufferify statement (the text is blank padded, not terminated) it is
+     delimited by the trimmed length; from the argument alone only where the argument is a NUL-terminated C string *)
+  | StringCtor stmt _ args =>
+      match args with
+      | [a] => if String.eqb a "{c_var}" then negb (ends_with "_buf" stmt) else true
+      | [a; n] => if String.eqb a "{c_var}" then is_trim n else true
+      | _ => true
+      end
   end.
 
 (* Every call site in the statement tables passes the declared length where a capacity is
